@@ -214,6 +214,13 @@ class Ctx:
         distinct = len({r["name"] for r in recs if r.get("symbols") and r.get("nontrivial", True)})
         level = self.level
         expl = self.explanation
+        try:  # the evidence level follows the category claimed in MANIFEST.json (a partial claim is filed as 'other' there)
+            with open(os.path.join(os.path.dirname(os.path.dirname(os.path.abspath(__file__))), "MANIFEST.json")) as mf:
+                claimed = {c["property_id"]: c["level_claimed"]["category"] for c in json.load(mf)["checks"]}
+            if claimed.get(self.pid) == "other":
+                level = "other"
+        except Exception:  # noqa: BLE001
+            pass
         if level == "proof" and (len(disc) != n_obl or n_obl == 0):
             level = "other"
             expl = (expl + " " if expl else "") + (
